@@ -2,10 +2,10 @@
 EXTENDS C02_Channel, Json
 \* JSON-able projection of the VIEW'd state (compact: every printed edge carries two of them):
 \* << nsent, wnonce, rnonce, wire as <<nonce, plaintext length, st>>, closed, qlive, Len(qbuf), qseek,
-\*    broken, Len(delivered), rdErr, under, nfault, errPos, stopPos, rg, wg, loose, nglitch, wdead >>
+\*    broken, Len(delivered), rdErr, under, nfault, errPos, stopPos, rg, wg, loose, nglitch, wdead, wr >>
 St == << nsent, wnonce, rnonce, [i \in 1..Len(wire) |-> <<wire[i].n, Len(wire[i].pt), wire[i].st>>], closed,
          qlive, Len(qbuf), qseek, broken, Len(delivered), rdErr, under, nfault, errPos, stopPos, rg, wg, loose, nglitch,
-         wdead >>
+         wdead, wr >>
 EmitEdge == PrintT(<<"VFEDGE", ToJson([s |-> St, op |-> op', t |-> St'])>>)
 Conf == [tag |-> Tag, maxpt |-> MaxPT, maxsent |-> MaxSent, maxwrite |-> MaxWrite, bufs |-> Bufs,
          shorts |-> Shorts, faults |-> Faults, maxfaults |-> MaxFaults, others |-> Others, glitches |-> Glitches]
